@@ -9,7 +9,11 @@ with generated tags and the loaded mesh is compared clause by clause with the or
 * boundaries as sets of facets identified by their *vertex sets* (not only by facet number),
 * orientations as sets of (facet vertex set, index of the cell the flag selects): flag o of facet f
   means "the trace is taken from cell f2t[o, f]", so the owner cell is what has to survive,
-* user point/cell data, and a byte-level snapshot of the mesh before/after every export.
+* user point/cell data (float64/int64 and float32/int32/uint8: values), and a byte-level snapshot of the mesh
+  (p, t, element_dofs, the cached facets/t2f/f2t, tag arrays) before/after every export,
+* the call variants load(path, out=[...]) / load(path) / load(pathlib.Path), save(str | Path), from_meshio(m[, out]),
+* the loaded mesh is used: loaded.f2t[tag.ori, tag] must work, and it is re-exported in further formats
+  (`chain`), every link being compared with the original again.
 
 Pitfalls found while building (library right / third party, oracle adapted):
 * meshio 5.3.5 + NumPy 2 cannot read back its own *ASCII* gmsh files as soon as they hold any
@@ -27,6 +31,10 @@ Pitfalls found while building (library right / third party, oracle adapted):
   only (facet, owner cell) is.  What is *not* accepted is that the tags come back on other facets (RESORT_MECH).
 * npz/dict/JSON do not store the class: the caller names it (`type(m).load_npz`, `type(m).from_dict`);
   only `skfem.io.json.from_file` and `Mesh.load` detect it.
+* An oriented tag is a multiset of (facet, flag): (f, 0) and (f, 1) in one tag are two entries (both sides of an
+  interface).  The bit-mask decoder returns them in facet order, so pairs are compared as sorted lists.  Duplicates in
+  *plain* tags are outside the statement and never generated.
+* Integer user data are compared exactly also after ASCII .vtu (abs(int32 min) overflows in a relative test).
 * Coordinates of the shared generators are short dyadic rationals which every decimal format prints
   exactly; the cases here are additionally mapped by irrational affine maps so that all 53 mantissa bits matter.
 """
@@ -35,6 +43,7 @@ from __future__ import annotations
 import contextlib
 import io
 import os
+import pathlib
 import tempfile
 from dataclasses import replace
 
@@ -47,7 +56,8 @@ PID = "C17"
 RULE = ("random first- and second-order (straight and curved) tri/quad/tet/hex meshes (renumbered, permuted, local "
         "orders, holes; coordinates mapped by irrational scalings/offsets) x generated tag sets (overlapping cell "
         "subsets, boundary/interior/mixed facet subsets, OrientedBoundary with random 0/1 flags on interior facets, "
-        "closed interfaces from facets_around, all interior facets, empty tags, int32/int64/strided/read-only index "
+        "closed interfaces from facets_around, two-sided oriented tags (one interior facet with flag 0 and with flag "
+        "1), all interior facets, empty tags, int32/int64/strided/read-only index "
         "arrays) x {gmsh 4.1, gmsh 2.2, vtk, vtu (binary, ascii, uncompressed), to_meshio/from_meshio, npz, "
         "dict, json}; plus directed cases and re-export of every mesh under docs/examples/meshes; distinct key = "
         "(mesh class, format, tag kinds); non-trivial iff >= 1 interior facet is tagged with flag 1 or two tagged "
@@ -61,12 +71,17 @@ TRACK = ["skfem.io.meshio:to_meshio", "skfem.io.meshio:from_meshio", "skfem.io.m
          "skfem.generic_utils:OrientedBoundary.__new__"]
 REQUIRED_MONITORS = ["mesh-class", "vertex-coordinates", "connectivity", "high-order-nodes-per-cell", "tag-names",
                      "subdomain-sets", "boundary-facet-sets", "orientations", "tag-arrays-are-index-arrays",
-                     "point-data", "cell-data", "export-does-not-alter-mesh", "export-succeeds"]
+                     "point-data", "cell-data", "export-does-not-alter-mesh", "export-succeeds",
+                     "loaded-orientation-usable"]
 REQUIRED_REACH = ["more-than-127-cells", "interior-facet-flag-1", "two-tagged-facets-share-owner-cell", "several-subdomains-share-cell",
                   "second-order-curved", "hex-permutation", "docs-meshes-cycled", "oriented-boundary-loaded",
                   "boundary-and-interior-facets-in-one-tag", "format:gmsh41", "format:gmsh22", "format:vtk",
                   "format:vtu", "format:meshio-object", "format:npz", "format:dict", "format:json",
-                  "tags:subdomains-only", "tags:boundaries-only"]
+                  "tags:subdomains-only", "tags:boundaries-only",
+                  "two-sided-oriented-tag", "two-sided-oriented-tag-loaded", "chain-hop-2", "chain-hop-3+",
+                  "hostile-name-oriented", "empty-tag-dictionaries", "user-data-kind:float32",
+                  "user-data-kind:int32", "user-data-kind:uint8", "load-without-out", "load-pathlib-path",
+                  "save-pathlib-path", "from_meshio-without-out"]
 ASSUMPTIONS = [
     "meshio (third party) reads back what it wrote for binary gmsh 2.2/4.1, vtk and vtu; ASCII gmsh is excluded "
     "because meshio 5.3.5 under NumPy 2 cannot re-read its own ASCII $ElementData",
@@ -232,6 +247,9 @@ def random_tags(rng, mesh, names=None, rich=True):
             tags.add_bnd(next(nxt), sel.astype(np.int32), np.zeros(sel.size, dtype=int), "ori-all-zero")
         elif r < 0.9:
             tags.add_bnd(next(nxt), np.array([], dtype=np.int32), None, "bnd-empty")
+        elif interior.size:
+            f, o = two_sided(rng, mesh, interior)
+            tags.add_bnd(next(nxt), f, o, "ori-two-sided")
     # meshes carrying one kind of tag only
     r = rng.random()
     if r < 0.12:
@@ -247,14 +265,39 @@ def random_tags(rng, mesh, names=None, rich=True):
     return tags
 
 
+def two_sided(rng, mesh, interior):
+    """An oriented tag that holds interior facets from *both* sides: (f, 0) and (f, 1) are two different entries
+    (trace from the one and from the other neighbour).  Either the union of facets_around(A) and
+    facets_around(complement of A), the way a caller gets such a tag, or random facets listed twice mixed with
+    facets listed once; random order."""
+    nt = mesh.t.shape[1]
+    if rng.random() < 0.5 and nt >= 2:
+        cells = np.sort(rng.permutation(nt)[:int(rng.integers(1, nt))]).astype(np.int32)
+        rest = np.setdiff1d(np.arange(nt, dtype=np.int32), cells)
+        a, b = mesh.facets_around(cells), mesh.facets_around(rest)
+        f = np.concatenate([np.asarray(a), np.asarray(b)])
+        o = np.concatenate([np.asarray(a.ori), np.asarray(b.ori)])
+    else:
+        twice = interior[rng.permutation(interior.size)[:int(rng.integers(1, interior.size + 1))]]
+        once = np.setdiff1d(interior, twice)
+        once = once[rng.permutation(once.size)[:int(rng.integers(0, 4))]]
+        f = np.concatenate([twice, twice, once])
+        o = np.concatenate([np.zeros(twice.size, dtype=int), np.ones(twice.size, dtype=int),
+                            rng.integers(0, 2, size=once.size)])
+    perm = rng.permutation(f.size)
+    return f[perm].astype(np.int32 if rng.random() < 0.5 else np.int64), o[perm]
+
+
 # ------------------------------------------------------------------------------------------- snapshots, keys
 def snapshot(mesh):
     def arr(a):
         a = np.asarray(a)
         return (a.dtype.str, a.shape, a.tobytes())
     # element_dofs is derived and cached on the mesh, but it is what the exporters write as connectivity
+    # ... and facets/t2f/f2t are the cached entities the tag encoder reads (and every later FacetBasis uses)
     snap = {"p": arr(mesh.doflocs), "t": arr(mesh.t), "cls": type(mesh).__name__,
-            "element_dofs": arr(mesh.dofs.element_dofs)}
+            "element_dofs": arr(mesh.dofs.element_dofs),
+            "facets": arr(mesh.facets), "t2f": arr(mesh.t2f), "f2t": arr(mesh.f2t)}
     for nm, d in (("s", mesh.subdomains), ("b", mesh.boundaries)):
         if d is None:
             snap[nm] = None
@@ -269,10 +312,11 @@ def facet_key(facets, f):
 
 
 def geo_pairs(mesh, facets_idx, flags):
-    """{(vertex set of the facet, owner cell selected by the flag)}."""
+    """Sorted list (a multiset: an oriented tag may list one interior facet twice, once per side) of
+    (vertex set of the facet, owner cell selected by the flag)."""
     fac = np.asarray(mesh.facets)
     f2t = np.asarray(mesh.f2t)
-    return {(facet_key(fac, f), int(f2t[o, f])) for f, o in zip(facets_idx, flags)}
+    return sorted((facet_key(fac, f), int(f2t[o, f])) for f, o in zip(facets_idx, flags))
 
 
 def flags_of(arr):
@@ -297,7 +341,7 @@ def a9_model(mesh, pairs):
         mask[s[0], c] = True
     fs = np.sort(t2f[mask])
     cells = mask.nonzero()[1]
-    return {int(f): int(f2t[1, f] == c) for f, c in zip(fs, cells)}
+    return sorted((int(f), int(f2t[1, f] == c)) for f, c in zip(fs, cells))
 
 
 # ---------------------------------------------------------------------------------------------- comparisons
@@ -305,6 +349,7 @@ def compare(ctx, fmt, orig, tags, loaded, exact_p=True, resorted_ok=False, case=
     """Hold the loaded mesh against the original, clause by clause."""
     cls = type(orig).__name__
     info = {"format": fmt, "mesh": cls, "case": case}
+    base = fmt.split(">")[-1]          # "chain>vtk": the loaded mesh of an earlier hop re-exported as vtk
     ctx.check("mesh-class", type(loaded) is type(orig), mech=f"class:{fmt}:{cls}", got=type(loaded).__name__, **info)
 
     p0, p1 = np.asarray(orig.doflocs), np.asarray(loaded.doflocs)
@@ -349,7 +394,7 @@ def compare(ctx, fmt, orig, tags, loaded, exact_p=True, resorted_ok=False, case=
         extra = sorted(got_names - set(ref))
 
         def names_mech(missing=missing, extra=extra):
-            if (fmt in MESHIO_LIKE and missing and all(":" in n for n in missing)
+            if (base in MESHIO_LIKE and missing and all(":" in n for n in missing)
                     and set(extra) <= {n.split(":")[0] for n in missing}):
                 return "tag-name-truncated-at-colon"
             return f"tag-names:{fmt}:{what}"
@@ -368,7 +413,7 @@ def compare(ctx, fmt, orig, tags, loaded, exact_p=True, resorted_ok=False, case=
         index_like = got.dtype.kind in "iu" and got.ndim == 1
         ctx.check("tag-arrays-are-index-arrays", index_like,
                   mech=("dict-json-empty-tag-loads-as-float-array"
-                        if fmt in ("dict", "json") and got.size == 0 and not ref and got.dtype.kind == "f"
+                        if base in ("dict", "json") and got.size == 0 and not ref and got.dtype.kind == "f"
                         else f"tag-dtype:{fmt}:subdomain"),
                   name=name, dtype=str(got.dtype), **info)
         lst = [int(c) for c in got.tolist()]
@@ -386,7 +431,7 @@ def compare(ctx, fmt, orig, tags, loaded, exact_p=True, resorted_ok=False, case=
         index_like = garr.dtype.kind in "iu" and garr.ndim == 1
         ctx.check("tag-arrays-are-index-arrays", index_like,
                   mech=("dict-json-empty-tag-loads-as-float-array"
-                        if fmt in ("dict", "json") and garr.size == 0 and not ref and garr.dtype.kind == "f"
+                        if base in ("dict", "json") and garr.size == 0 and not ref and garr.dtype.kind == "f"
                         else f"tag-dtype:{fmt}:boundary"),
                   name=name, dtype=str(garr.dtype), **info)
         gidx = [int(f) for f in garr.tolist()]
@@ -394,13 +439,30 @@ def compare(ctx, fmt, orig, tags, loaded, exact_p=True, resorted_ok=False, case=
         if hasattr(got, "ori") and got.ori is not None and any(gflags):
             ctx.reached("oriented-boundary-loaded")
         in_range = all(0 <= f < fac1.shape[1] for f in gidx)
+        gori = getattr(got, "ori", None)
+        if gori is not None:
+            # the loaded orientation has to be usable the way the library uses it: mesh.f2t[ori, facets]
+            well = (isinstance(gori, np.ndarray) and gori.dtype.kind in "iu" and gori.shape == garr.shape
+                    and bool(np.isin(gori, (0, 1)).all()))
+            owners = None
+            if well and in_range:
+                try:
+                    owners = np.asarray(loaded.f2t)[got.ori, got]
+                except Exception as e:      # noqa: BLE001 - any failure of the documented indexing is the finding
+                    owners = repr(e)[:120]
+                well = (isinstance(owners, np.ndarray) and owners.shape == garr.shape
+                        and owners.tolist() == [int(loaded.f2t[o, f]) for f, o in zip(gidx, gflags)])
+            ctx.check("loaded-orientation-usable", well, mech=f"orientation-array-unusable:{fmt}", name=name,
+                      dtype=str(getattr(gori, "dtype", type(gori).__name__)),
+                      shape=(getattr(gori, "shape", None), garr.shape),
+                      owners=lambda: owners if isinstance(owners, str) else None, **info)
         ref_keys = sorted(facet_key(fac0, f) for f, _ in ref)
         got_keys = sorted(facet_key(fac1, f) for f in gidx) if in_range else None
         # facet numbers are a function of the sorted vertex tuples only, so they are comparable even when the
         # loader re-sorted the cells' local vertex order
         sets_ok = in_range and got_keys == ref_keys and sorted(gidx) == sorted(f for f, _ in ref)
         ctx.check("boundary-facet-sets", sets_ok,
-                  mech=(RESORT_MECH if resorted and fmt in MESHIO_LIKE else f"boundary-set:{fmt}:{cls}"), name=name,
+                  mech=(RESORT_MECH if resorted and base in MESHIO_LIKE else f"boundary-set:{fmt}:{cls}"), name=name,
                   kind=tags.kinds.get("b:" + name), expected=sorted(f for f, _ in ref)[:40], got=sorted(gidx)[:40],
                   **info)
         if not sets_ok:
@@ -412,19 +474,22 @@ def compare(ctx, fmt, orig, tags, loaded, exact_p=True, resorted_ok=False, case=
             continue   # an unoriented set promises no owner cell, and flag 0 names another cell after re-sorting
         # flags are relative to f2t, whose column order depends on the local vertex order: when the loader
         # re-sorted the cells only the owner cells are comparable, not the raw flags
-        ori_ok = ref_pairs == got_pairs and (resorted or dict(zip(gidx, gflags)) == dict(ref))
+        # (sorted pair lists, not dictionaries: a two-sided tag holds one facet with flag 0 and with flag 1)
+        ori_ok = ref_pairs == got_pairs and (resorted or sorted(zip(gidx, gflags)) == sorted(ref))
+        if ori_ok and len(set(gidx)) < len(gidx):
+            ctx.reached("two-sided-oriented-tag-loaded")
 
         def ori_mech(ref=ref, gidx=gidx, gflags=gflags, has_flag1=has_flag1):
             lost = has_flag1 and not any(gflags)
-            if fmt == "npz" and lost:
+            if base == "npz" and lost:
                 return "orientation-dropped:npz"
-            if fmt in ("dict", "json") and lost:
+            if base in ("dict", "json") and lost:
                 return "orientation-dropped:dict-json"
             if resorted:
                 return RESORT_MECH   # (stored raw flags name other cells after re-sorting: any format)
-            if fmt in MESHIO_LIKE:
+            if base in MESHIO_LIKE:
                 model = a9_model(orig, ref)
-                if model is not None and model == dict(zip(gidx, gflags)):
+                if model is not None and model == sorted(zip(gidx, gflags)):
                     return "decode-pairs-sorted-facets-with-unsorted-owner-cells"
             return f"orientation:{fmt}:{cls}"
         ctx.check("orientations", ori_ok, mech=ori_mech, name=name, kind=tags.kinds.get("b:" + name),
@@ -436,9 +501,11 @@ def compare_data(ctx, fmt, ref_pd, ref_cd, out, exact=True, case=None):
     got_pd, got_cd = out
     for name, ref in ref_pd.items():
         got = None if got_pd is None else got_pd.get(name)
+        if ref.dtype != np.float64 and ref.dtype != np.int64:
+            ctx.reached("user-data-kind:" + ref.dtype.name)
         if got is None:
             ctx.check("point-data", False, mech=f"point-data-missing:{fmt}", name=name, format=fmt, case=case)
-        elif exact:
+        elif exact or ref.dtype.kind in "iu":      # integers are printed exactly by every format
             got = np.asarray(got)
             ctx.check("point-data", got.shape == ref.shape and np.array_equal(got, ref), mech=f"point-data:{fmt}",
                       name=name, format=fmt, case=case, shapes=(ref.shape, got.shape))
@@ -448,7 +515,7 @@ def compare_data(ctx, fmt, ref_pd, ref_cd, out, exact=True, case=None):
         got = None if got_cd is None else got_cd.get(name)
         if got is None or len(got) != 1:
             ctx.check("cell-data", False, mech=f"cell-data-missing:{fmt}", name=name, format=fmt, case=case)
-        elif exact:
+        elif exact or ref[0].dtype.kind in "iu":
             g = np.asarray(got[0])
             ctx.check("cell-data", g.shape == ref[0].shape and np.array_equal(g, ref[0]), mech=f"cell-data:{fmt}",
                       name=name, format=fmt, case=case, shapes=(ref[0].shape, g.shape))
@@ -457,9 +524,9 @@ def compare_data(ctx, fmt, ref_pd, ref_cd, out, exact=True, case=None):
                       case=case)
 
 
-def user_data(rng, mesh):
+def user_data(rng, mesh, rng2=None):
     """Point data over all nodes (second-order nodes included) and cell data: scalars with extreme magnitudes,
-    3-vectors, small integers."""
+    3-vectors, small integers; with `rng2` also float32, int32 and uint8 arrays."""
     nn, nt = mesh.p.shape[1], mesh.t.shape[1]
     mags = 10.0 ** rng.integers(-300, 300, size=nn)
     pd = {"u": rng.standard_normal(nn) * mags,
@@ -469,6 +536,22 @@ def user_data(rng, mesh):
     cd = {"c": [rng.standard_normal(nt) * np.pi],
           "cvec": [rng.standard_normal((nt, 3))],
           "mat": [rng.integers(0, 5, size=nt)]}
+    if rng2 is not None:
+        # narrower kinds a caller may hand in (single precision fields, material numbers as int32 / uint8); the
+        # *values* have to come back (gmsh stores reals, VTK is big-endian: the dtype is the format's business).
+        # No 2-vectors (legacy VTK pads them to 3) and no bool (meshio has no VTK type for it).
+        def kinds(n):
+            f32 = (rng2.standard_normal(n) * 10.0 ** rng2.integers(-30, 30, size=n)).astype(np.float32)
+            i32 = rng2.integers(-2 ** 31, 2 ** 31, size=n).astype(np.int32)
+            u8 = rng2.integers(0, 256, size=n).astype(np.uint8)
+            for a, special in ((f32, [np.finfo(np.float32).max, np.finfo(np.float32).tiny, -0.0, 1e-45]),
+                               (i32, [-2 ** 31, 2 ** 31 - 1]), (u8, [255, 0])):
+                for v in special:
+                    a[rng2.integers(n)] = v
+            return f32, i32, u8, rng2.standard_normal((n, 3)).astype(np.float32)
+        pd["f32"], pd["i32"], pd["u8"], pd["f32vec"] = kinds(nn)
+        for nm, a in zip(("cf32", "ci32", "cu8", "cf32vec"), kinds(nt)):
+            cd[nm] = [a]
     return pd, cd
 
 
@@ -479,6 +562,7 @@ def cycle_all(ctx, mesh, tags, case, formats=None, with_data=True, resorted_ok=F
     import skfem.io.json as sjson
     from skfem.io.meshio import from_meshio, to_meshio
     rng = ctx.rng("data")
+    rng2 = ctx.rng("data-kinds")
     cls = type(mesh)
     order = G.order_of(mesh)
     before = snapshot(mesh)
@@ -492,24 +576,39 @@ def cycle_all(ctx, mesh, tags, case, formats=None, with_data=True, resorted_ok=F
         ctx.check("export-does-not-alter-mesh", after == before, mech=f"export-alters-mesh:{fmt}",
                   changed=lambda: [k for k in before if before[k] != after[k]], format=fmt, case=case)
 
+    rot = _rotation(ctx)
     with tempfile.TemporaryDirectory(prefix="rv-c17-") as tmp:
-        for fmt in fmts:
+        for pos, fmt in enumerate(fmts):
             ctx.reached("format:" + fmt.split("-")[0] if fmt in table else "format:" + fmt)
             loaded = None
+            # how the caller names the file and whether it asks for the meshio attributes: the same file has to give
+            # the same mesh through load(path, out=[...]), load(path) and load(pathlib.Path(path))
+            load_mode = (ctx.k + pos + rot) % 3
             if fmt in table:
                 _, ext, kw, exact = table[fmt]
                 path = os.path.join(tmp, "m-" + fmt + ext)
-                pd, cd = user_data(rng, mesh) if with_data else ({}, {})
+                pd, cd = user_data(rng, mesh, rng2) if with_data else ({}, {})
                 out = ["point_data", "cell_data"]
+                save_path = pathlib.Path(path) if (ctx.k // 3 + pos + rot) % 2 else path
                 try:
                     with quiet():
                         # the library adds its tag arrays to the dictionaries it is given: hand in copies
-                        mesh.save(path, point_data={k: v.copy() for k, v in pd.items()} if pd else None,
+                        mesh.save(save_path, point_data={k: v.copy() for k, v in pd.items()} if pd else None,
                                   cell_data={k: [a.copy() for a in v] for k, v in cd.items()} if cd else None,
                                   **kw)
+                        if save_path is not path:
+                            ctx.reached("save-pathlib-path")
                         unchanged(fmt)
                         loader = skfem.Mesh if ctx.k % 2 == 0 else cls     # classmethod: the class must not matter
-                        loaded = loader.load(path, out=out)
+                        if load_mode == 0:
+                            loaded = loader.load(path, out=out)
+                        else:
+                            loaded = loader.load(path if load_mode == 1 else pathlib.Path(path))
+                            ctx.reached("load-without-out")
+                            if load_mode == 2:
+                                ctx.reached("load-pathlib-path")
+                            if with_data:
+                                loader.load(path, out=out)       # user data are only handed out through `out`
                 except Exception as e:
                     if _is_vtk_blank_refusal(e):
                         ctx.drop("vtk-refuses-blank-in-field-name")
@@ -524,13 +623,19 @@ def cycle_all(ctx, mesh, tags, case, formats=None, with_data=True, resorted_ok=F
                     compare_data(ctx, fmt, pd, cd, out, exact=exact, case=case)
                 compare(ctx, fmt, mesh, tags, loaded, exact_p=exact, resorted_ok=resorted_ok, case=case)
             elif fmt == "meshio-object":
-                pd, cd = user_data(rng, mesh) if with_data else ({}, {})
+                pd, cd = user_data(rng, mesh, rng2) if with_data else ({}, {})
                 out = ["point_data", "cell_data"]
                 with quiet():
                     mio = to_meshio(mesh, {k: v.copy() for k, v in pd.items()} if pd else None,
                                     {k: [a.copy() for a in v] for k, v in cd.items()} if cd else None)
                     unchanged(fmt)
-                    loaded = from_meshio(mio, out=out)
+                    if load_mode == 0:
+                        loaded = from_meshio(mio, out=out)
+                    else:
+                        loaded = from_meshio(mio)
+                        ctx.reached("from_meshio-without-out")
+                        if with_data:
+                            from_meshio(mio, out=out)
                 if with_data:
                     compare_data(ctx, fmt, pd, cd, out, case=case)
                 compare(ctx, fmt, mesh, tags, loaded, resorted_ok=resorted_ok, case=case)
@@ -561,6 +666,80 @@ def cycle_all(ctx, mesh, tags, case, formats=None, with_data=True, resorted_ok=F
                 ctx.nontrivial(cls.__name__, fmt, kinds)
 
 
+_ROT = {"case": None, "n": 0}
+
+
+def _rotation(ctx):
+    """Number of cycles already run inside the current case (a pure function of the case: reset per case), used to
+    rotate the call variants over the formats also in directed cases that run many cycles under one index."""
+    key = (ctx.seed, ctx.family, ctx.k)
+    if _ROT["case"] != key:
+        _ROT["case"], _ROT["n"] = key, 0
+    else:
+        _ROT["n"] += 1
+    return _ROT["n"]
+
+
+def chain(ctx, mesh, tags, case, hops):
+    """The loaded mesh is a mesh like any other: export what was loaded in the next format, load again, ... and
+    hold every link of the chain against the *original* (a loader that leaves the mesh in a state the next exporter
+    mishandles - tag dtypes, cached entities, oriented arrays - shows up at the second hop)."""
+    import skfem
+    import skfem.io.json as sjson
+    from skfem.io.meshio import from_meshio, to_meshio
+    rng = ctx.rng("chain")
+    order = G.order_of(mesh)
+    table = {f[0]: f for f in MESHIO_FORMATS + MESHIO_VARIANTS}
+    pool = ([f[0] for f in MESHIO_FORMATS] + ["meshio-object", "npz"] + (["dict", "json"] if order == 1 else [])
+            + [MESHIO_VARIANTS[int(rng.integers(len(MESHIO_VARIANTS)))][0]])
+    seq = [pool[i] for i in rng.permutation(len(pool))[:hops]]
+    cur, exact = mesh, True
+    with tempfile.TemporaryDirectory(prefix="rv-c17c-") as tmp:
+        for hop, fmt in enumerate(seq):
+            before = snapshot(cur)
+            if fmt in table:
+                _, ext, kw, ex = table[fmt]
+                path = os.path.join(tmp, f"c{hop}{ext}")
+                try:
+                    with quiet():
+                        cur.save(path, **kw)
+                        nxt = skfem.Mesh.load(path)
+                except Exception as e:
+                    if _is_vtk_blank_refusal(e):
+                        ctx.drop("vtk-refuses-blank-in-field-name")
+                        continue
+                    raise
+                exact = exact and ex
+            elif fmt == "meshio-object":
+                with quiet():
+                    nxt = from_meshio(to_meshio(cur))
+            elif fmt == "npz":
+                path = os.path.join(tmp, f"c{hop}.npz")
+                cur.save_npz(path)
+                nxt = type(cur).load_npz(path)
+            elif fmt == "dict":
+                nxt = type(cur).from_dict(cur.to_dict())
+            else:
+                path = os.path.join(tmp, f"c{hop}.json")
+                sjson.to_file(cur, path)
+                nxt = sjson.from_file(pathlib.Path(path))
+            if hop:
+                # (the first hop is what cycle_all does)
+                after = snapshot(cur)
+                ctx.check("export-does-not-alter-mesh", after == before, mech=f"export-alters-loaded-mesh:{fmt}",
+                          changed=lambda: [k for k in before if before[k] != after[k]], format=fmt, case=case)
+            label = ">".join(["chain"] * bool(hop) + [fmt])
+            nviol = sum(m["violations"] for m in ctx.monitors.values())
+            if not compare(ctx, label, mesh, tags, nxt, exact_p=exact, case=dict(case, chain=seq[:hop + 1])):
+                break
+            if sum(m["violations"] for m in ctx.monitors.values()) > nviol:
+                break          # a link that is already wrong: do not blame the formats after it
+            if hop:
+                ctx.reached("chain-hop-" + str(min(hop + 1, 3)) + ("" if hop < 2 else "+"))
+                ctx.reached("chain-into:" + fmt.split("-")[0])
+            cur = nxt
+
+
 def _is_point_encoding_length_error(e, mesh):
     """Mesh._encode_point_data sizes its indicators by the number of *vertices*; a second-order mesh has more
     nodes than vertices and meshio rejects the short arrays."""
@@ -585,6 +764,8 @@ def nontrivial_of(ctx, mesh, tags):
         kinds = {bool(f2t[1, f] == -1) for f, _ in pairs}
         if kinds == {True, False}:
             ctx.reached("boundary-and-interior-facets-in-one-tag")
+        if len({f for f, _ in pairs}) < len(pairs) and len(set(pairs)) == len(pairs):
+            ctx.reached("two-sided-oriented-tag")
     if flag1:
         ctx.reached("interior-facet-flag-1")
     if share:
@@ -646,6 +827,7 @@ def random_case(kind):
         fmts.append(MESHIO_VARIANTS[k % len(MESHIO_VARIANTS)][0])
         nt = nontrivial_of(ctx, tagged, tags)
         cycle_all(ctx, tagged, tags, case, formats=fmts, nt_base=nt)
+        chain(ctx, tagged, tags, case, hops=ctx.scale(3, 4))
         ctx.sample({"mesh": type(tagged).__name__, "case": case, "cells": int(mesh.t.shape[1]),
                     "subdomains": {n: len(v) for n, v in tags.sub.items()},
                     "boundaries": {n: {"facets": len(v), "flag1": sum(o for _, o in v)} for n, v in tags.bnd.items()},
@@ -713,6 +895,22 @@ def d_names(ctx, name):
             tags.add_bnd(nm, np.array([i, 2 * i + 1], dtype=np.int32), None, "bnd-named")
         tagged = tags.apply(mesh)
         cycle_all(ctx, tagged, tags, {"directed": name, "names": group}, with_data=False)
+        # the same names on *oriented* interior tags: the name also travels through 'o_' + name (npz),
+        # orientations[name] (dict/json) and the bit mask 'skfem:b:<name>' whose decoding yields the flags
+        interior, _ = facet_classes(mesh)
+        tags = Tags()
+        for i, nm in enumerate(group):
+            sel = interior[[i, (5 * i + 7) % interior.size, interior.size - 1 - i]]
+            tags.add_bnd(nm, sel.astype(np.int32), np.array([1, i % 2, 1 - i % 2]), "ori-named")
+            tags.add_sub(nm, np.array([i, i + 8, 7], dtype=np.int32), "sub-named")
+        # (plus one plain tag whose name looks like the stored orientation of another one)
+        if "o_" + group[0] not in group:
+            tags.add_bnd("o_" + group[0], np.array([0, 3], dtype=np.int32), None, "bnd-named")
+        tagged = tags.apply(mesh)
+        if nontrivial_of(ctx, tagged, tags):
+            ctx.reached("hostile-name-oriented")
+        cycle_all(ctx, tagged, tags, {"directed": name, "names": group, "oriented": True}, with_data=False)
+        chain(ctx, tagged, tags, {"directed": name, "names": group, "oriented": True}, hops=4)
 
 
 def d_empty_and_none(ctx, name):
@@ -726,6 +924,13 @@ def d_empty_and_none(ctx, name):
             tags.add_bnd("nowhere", np.array([], dtype=np.int32), None, "bnd-empty")
             cycle_all(ctx, tags.apply(mesh), tags, {"directed": name, "kind": kind, "order": order, "tags": "empty"},
                       with_data=False)
+            # empty dictionaries rather than None
+            m0 = mesh.with_boundaries({}).with_subdomains({})
+            if m0.boundaries is not None and len(m0.boundaries) == 0:
+                ctx.reached("empty-tag-dictionaries")
+            cycle_all(ctx, m0, Tags(), {"directed": name, "kind": kind, "order": order, "tags": "{}"},
+                      with_data=False)
+            chain(ctx, m0, Tags(), {"directed": name, "kind": kind, "order": order, "tags": "{}"}, hops=3)
         for order in (1, 2):
             # one cell only: no interior facet at all
             # (init_refdom of the second-order classes carries no high-order nodes: not a valid mesh)
@@ -771,6 +976,17 @@ def d_closed_interfaces(ctx, name):
                 ob = mesh.facets_around(inner, flip=flip)
                 keep = np.asarray(mesh.f2t)[1, np.asarray(ob)] != -1
                 tags.add_bnd(nm, np.asarray(ob)[keep], np.asarray(ob.ori)[keep], "ori-around")
+            # both sides of the interface in one tag: every interface facet once with flag 0 and once with flag 1
+            # (plus the domain boundary once): the encoder sets a bit in both neighbours, the decoder has to hand
+            # the facet out twice
+            rest = np.setdiff1d(np.arange(mesh.t.shape[1]), inner)
+            oa, ob = mesh.facets_around(inner), mesh.facets_around(rest)
+            tags.add_bnd("both_sides", np.concatenate([np.asarray(oa), np.asarray(ob)]),
+                         np.concatenate([np.asarray(oa.ori), np.asarray(ob.ori)]), "ori-two-sided")
+            interior, _ = facet_classes(mesh)
+            tags.add_bnd("all_twice", np.concatenate([interior, interior[::-1]]).astype(np.int32),
+                         np.concatenate([np.zeros(interior.size, dtype=int), np.ones(interior.size, dtype=int)]),
+                         "ori-two-sided")
             tagged = tags.apply(mesh)
             nt = nontrivial_of(ctx, tagged, tags)
             cycle_all(ctx, tagged, tags, {"directed": name, "kind": kind, "order": order}, with_data=False,
